@@ -30,15 +30,17 @@ def milli(a, s):
     return np.where(np.isnan(a), NAN, np.rint(np.nan_to_num(a))).astype(np.int64).tolist()
 
 
-def ref_case(cid, cv_ds, before_disp, before_vm, after_ds, method, cost_scale):
+def ref_case(cid, cv_ds, before_disp, before_vm, after_ds, method, cost_scale, offset=0.0):
+    """offset: a constant subtracted from the costs and from the fitted cost before they are encoded (the V-fit and the parabola are
+    translation-covariant: the shift does not change, the fitted cost moves with the costs), so that large costs stay small integers"""
     s = int(cv_ds.attrs["subpixel"])
     disp0 = float(cv_ds.coords["disp"].data[0])
     return {"id": cid, "step": "refinement", "method": method, "type": str(cv_ds.attrs["type_measure"]), "s": s,
             "first": int(round(disp0 * s)), "rows": int(cv_ds.sizes["row"]), "cols": int(cv_ds.sizes["col"]),
-            "cv": enc_scaled(cv_ds["cost_volume"].data, cost_scale),
+            "cv": enc_scaled(np.asarray(cv_ds["cost_volume"].data, dtype=np.float64) - offset, cost_scale),
             "before": {"disp": enc_frac_arr(before_disp, s), "vm": enc_int(before_vm), "d3": milli(before_disp, s)},
             "after": {"disp": enc_frac_arr(after_ds["disparity_map"].data, s), "vm": enc_int(after_ds["validity_mask"].data),
-                      "coef": enc_frac_arr(after_ds["interpolated_coeff"].data, cost_scale),
+                      "coef": enc_frac_arr(np.asarray(after_ds["interpolated_coeff"].data, dtype=np.float64) - offset, cost_scale),
                       "d3": milli(after_ds["disparity_map"].data, s),
                       "delta3": milli(np.abs(np.asarray(after_ds["disparity_map"].data, dtype=np.float64)
                                              - np.asarray(before_disp, dtype=np.float64)), s)}}
@@ -50,6 +52,9 @@ def gen_int_costs(rng, rows, cols, nd, style):
         c += (rng.rand(rows, cols, nd) < 0.3)
     elif style == "ties":
         c = rng.randint(0, 3, size=(rows, cols, nd)).astype(np.float32)
+    elif style == "offset":
+        # large costs with small differences (a strong radiometric offset, weak texture): exact in float32, NOT a flat curve
+        c = (200000 + rng.randint(0, 9, size=(rows, cols, nd))).astype(np.float32)
     else:
         c = rng.randint(0, 9, size=(rows, cols, nd)).astype(np.float32)
     c[rng.rand(rows, cols, nd) < rng.choice([0.0, 0.15, 0.4])] = np.nan
@@ -79,7 +84,7 @@ def run(tier):
         nd = int(rng.randint(2, 7))
         s = int([1, 2, 4][k % 3])
         tm = ["min", "max"][k % 2]
-        style = ["flat", "ties", "spread"][(k // 2) % 3]
+        style = ["flat", "ties", "spread"][(k // 2) % 3] if k % 7 != 6 else "offset"
         method = ["vfit", "quadratic"][(k // 6) % 2]
         chain = ["wta", "wta+median", "wta+ref", "wta+median+ref", "anysample", "anysample+ref", "offsample", "offsample+ref"][(k // 12) % 8]
         costs = gen_int_costs(rng, rows, cols, nd, style)
@@ -118,7 +123,7 @@ def run(tier):
                 r.subpixel_refinement(cv, d)
                 n += 1
                 cid = f"r{n}"
-                cases.append(ref_case(cid, cv, before_disp, before_vm, d, mth, 1))
+                cases.append(ref_case(cid, cv, before_disp, before_vm, d, mth, 1, offset=200000.0 if style == "offset" else 0.0))
                 meta[cid] = dict(feat, stage=si, method=mth, repeated=si > 0, after_filter="median" in chain)
                 if len(chk.samples) < 3:
                     chk.sample({"features": meta[cid], "cv_pixel": cases[-1]["cv"][0][0], "before": cases[-1]["before"]["disp"][0][0],
